@@ -80,13 +80,13 @@ Definition parse_u16 (st : cst) : option (N * cst) :=
 Definition from_hex (s : bytes) : option bytes :=
   if forallb is_hexdigit s then hex_pairs s else None.
 
-Definition marshal_prefix : bytes := ascii "org.apache.cassandra.db.marshal.".
+Definition marshal_prefix : bytes := astr "org.apache.cassandra.db.marshal."%string.
 Definition strip_marshal (name : bytes) : bytes :=
   match strip_prefix marshal_prefix name with Some r => r | None => name end.
 
 Definition simple_type (name : bytes) : option native :=
   let n := strip_marshal name in
-  if is_str n "AsciiType" then Some Ascii else if is_str n "BooleanType" then Some Boolean
+  if is_str n "AsciiType" then Some FrameTypes.Ascii else if is_str n "BooleanType" then Some Boolean
   else if is_str n "BytesType" then Some Blob else if is_str n "CounterColumnType" then Some Counter
   else if is_str n "DateType" then Some Date else if is_str n "DecimalType" then Some Decimal
   else if is_str n "DoubleType" then Some Double else if is_str n "DurationType" then Some Duration
@@ -99,50 +99,61 @@ Definition simple_type (name : bytes) : option native :=
   else if is_str n "TinyIntType" then Some TinyInt else if is_str n "TimeType" then Some Time
   else if is_str n "TimestampType" then Some Timestamp else None.
 
-(* ---- the type-parameter iterator (get_type_parameters) ----------------------------------- *)
-(* one `next()` of the from_fn iterator; [reported] = reported_end_of_input *)
-Definition next_item (elem : cp coltype) (reported : bool) (st : cst)
+(* ---- the type-parameter iterator (get_type_parameters, commit cd1a67a) ------------------- *)
+Definition is_err {A} (r : result ferr A) : bool := match r with Err _ => true | Ok _ => false end.
+
+(* one `next()` of the from_fn iterator; [fin] = the `finished` flag: set after the closing
+   parenthesis and after the first erroneous item (end of input or a failing do_parse) *)
+Definition next_item (elem : cp coltype) (fin : bool) (st : cst)
   : option (result ferr coltype) * bool * cst :=
-  if reported then (None, true, st)
+  if fin then (None, true, st)
   else
     let st1 := skip_blank_and_comma st in
     if at_eof st1 then (Some (Err ECtEof), true, st1)
     else match accept RPAR st1 with
-         | Some st2 => (None, false, st2)
-         | None => let '(r, st2) := elem st1 in (Some r, false, st2)
+         | Some st2 => (None, true, st2)
+         | None => let '(r, st2) := elem st1 in (Some r, is_err r, st2)
          end.
 
-(* itertools collect_array::<N> over get_type_parameters(), N = 1 or 2.  On a wrong count the
-   Rust code re-parses a copy of the state only to fill the `actual` field of the error: that has
-   no effect on the state or the error class and is not modelled (it is the source of the
-   running-time findings described in docs/C08.md). *)
-Fixpoint pull_k (k : nat) (elem : cp coltype) (reported : bool) (st : cst)
-  : option (list (result ferr coltype)) * bool * cst :=
+(* `parameters.by_ref().take(N).collect::<Vec<_>>()` *)
+Fixpoint take_k (k : nat) (elem : cp coltype) (fin : bool) (st : cst)
+  : list (result ferr coltype) * bool * cst :=
   match k with
-  | O => (Some [], reported, st)
+  | O => ([], fin, st)
   | S k' =>
-    match next_item elem reported st with
-    | (None, rep, st1) => (None, rep, st1)
-    | (Some x, rep, st1) =>
-      match pull_k k' elem rep st1 with
-      | (Some l, rep2, st2) => (Some (x :: l), rep2, st2)
-      | (None, rep2, st2) => (None, rep2, st2)
+    match next_item elem fin st with
+    | (None, fin1, st1) => ([], fin1, st1)
+    | (Some x, fin1, st1) =>
+      let '(l, fin2, st2) := take_k k' elem fin1 st1 in (x :: l, fin2, st2)
+    end
+  end.
+(* `parameters.count()`: the rest of the SAME iterator, parsed once *)
+Fixpoint count_rest (lf : nat) (elem : cp coltype) (fin : bool) (st : cst) : option N * cst :=
+  match lf with
+  | O => (None, st)
+  | S f =>
+    match next_item elem fin st with
+    | (None, _, st1) => (Some 0, st1)
+    | (Some _, fin1, st1) =>
+      match count_rest f elem fin1 st1 with
+      | (Some n, st2) => (Some (n + 1), st2)
+      | (None, st2) => (None, st2)
       end
     end
   end.
+Definition loop_fuel (st : cst) : nat := S (S (List.length (cs_s st))).
 
+(* get_n_type_parameters::<N>, N = 1 or 2 *)
 Definition get_n (n : nat) (elem : cp coltype) : cp (list (result ferr coltype)) := fun st =>
   if at_eof st then (Err ECtParamCount, st)      (* empty iterator, n > 0 *)
   else match accept LPAR st with
        | None => (Err ECtUnexpectedChar, st)
        | Some st1 =>
-         match pull_k n elem false st1 with
-         | (None, _, st2) => (Err ECtParamCount, st2)
-         | (Some items, rep, st2) =>
-           match next_item elem rep st2 with
-           | (None, _, st3) => (Ok items, st3)
-           | (Some _, _, st3) => (Err ECtParamCount, st3)
-           end
+         let '(items, fin, st2) := take_k n elem false st1 in
+         match count_rest (loop_fuel st2) elem fin st2 with
+         | (None, st3) => (Err EOutOfFuel, st3)
+         | (Some extra, st3) =>
+           if (lenN items + extra =? N.of_nat n) then (Ok items, st3) else (Err ECtParamCount, st3)
          end
        end.
 
@@ -162,8 +173,6 @@ Fixpoint collect_all (lf : nat) (elem : cp coltype) (reported : bool) (st : cst)
       end
     end
   end.
-Definition loop_fuel (st : cst) : nat := S (S (List.length (cs_s st))).
-
 Definition tuple_params (elem : cp coltype) : cp (list coltype) := fun st =>
   if at_eof st then (Err ECtParamCount, st)
   else match accept LPAR st with
@@ -342,3 +351,16 @@ Definition parse_custom : custom_parser := fun s =>
 Definition decode (decompress : bytes -> option bytes) (ft : features) (v2 compression : bool)
   (stream : bytes) : outcome * cost :=
   decode_frame parse_custom decompress ft v2 compression stream.
+
+(* ---- the bounds of C08_alloc / C08_depth (used by the driver as property predicates) ----- *)
+(* 208 bytes of preallocation per input byte (column specs: 104-byte entries capped by the
+   remaining bytes, plus what the entries themselves reserve) and a constant: the 1 MiB body
+   buffer and, on a failing path, one u16-counted vector per nesting level that never gets filled
+   (129 levels x 65535 x 56 bytes).  See docs/C08.md. *)
+Definition ALLOC_K : N := 208.
+Definition ALLOC_C : N := 2 ^ 29.
+Definition alloc_bound (len : N) : N := ALLOC_K * len + ALLOC_C.
+(* 129 levels of the binary grammar + 128 of a custom-type string *)
+Definition DEPTH_LIMIT : N := 257.
+Definition depth_bound : N := DEPTH_LIMIT.
+Definition is_rejected (o : outcome) : bool := match o with OErr _ _ => true | ODone _ => false end.
